@@ -144,6 +144,16 @@ def table_selection(ctx, rep, clause):
         if not pos:
             a, b = b, a
         ok = 'NEUTRON_OFFSETS' in a and 'ISOTOPE_MASSES' in b and 'NEUTRON_OFFSETS' not in b
+    # no read of either isotope table outside that selection (a shortcut would pick a table for both views)
+    outside = []
+    for n in walk_own(f.node):
+        if isinstance(n, ast.Attribute) and n.attr.startswith('ATOMIC_SYMBOL_TO_ISOTOPE') and \
+                (sel is None or not any(n is x for x in ast.walk(sel))):
+            outside.append(n)
+    ob(rep, 'SIB-table', f.fq, 'every read of an isotope table is under the use_neutron_count selection', not outside,
+       'one selection point', f'`{norm_stmt(outside[0]) if outside else ""}` is read outside the use_neutron_count test: '
+       f'the neutron-offset view and the mass view would both use it on that path', f.loc(outside[0]) if outside else
+       f.loc(), clause)
     ob(rep, 'SIB-table', f.fq, 'neutron-offset table under use_neutron_count, mass table otherwise', ok,
        'one test selects between the two sibling tables', 'the isotope tables are selected by the wrong branch', 
        f.loc(sel) if sel is not None else f.loc(), clause)
@@ -151,6 +161,22 @@ def table_selection(ctx, rep, clause):
     div = [n for n in walk_own(g.node) if isinstance(n, ast.If) and 'is_abundance_sum' in norm_stmt(n.test)]
     ok = len(div) == 1 and 'abundance / total_abundance' in ' '.join(norm_stmt(s) for s in div[0].body) and \
         not div[0].orelse
+    # the divisor is the sum over the very list that is normalised and returned
+    tot_ok = False
+    if div:
+        body = div[0].body
+        tot = [s_ for s_ in body if isinstance(s_, ast.Assign) and isinstance(s_.value, ast.Call) and
+               norm_stmt(s_.value.func) == 'sum']
+        norm = [s_ for s_ in body if isinstance(s_, ast.Assign) and isinstance(s_.value, ast.ListComp)]
+        if tot and norm:
+            src_tot = norm_stmt(tot[0].value.args[0].generators[0].iter) if isinstance(tot[0].value.args[0], ast.GeneratorExp) else '?'
+            src_norm = norm_stmt(norm[0].value.generators[0].iter)
+            tot_ok = src_tot == src_norm == norm_stmt(norm[0].targets[0]) and \
+                norm_stmt(tot[0].targets[0]) in norm_stmt(norm[0].value.elt)
+    ob(rep, 'SIB-table', g.fq, 'the divisor is the sum of the peaks that are returned', tot_ok,
+       'sum over the list being normalised', 'the total used for sum-normalisation is not computed from the list that '
+       'is normalised (e.g. taken before pruning): the returned abundances no longer add up to the requested total',
+       g.loc(), clause)
     ob(rep, 'SIB-table', g.fq, 'division by the total only under is_abundance_sum', ok, 'sum-normalisation is optional',
        'the sum normalisation is applied on the wrong branch', g.loc(), clause)
     top = [norm_stmt(s) for s in g.node.body]
